@@ -193,7 +193,9 @@ func MannWhitneyUTest(x1, x2 []float64, alt LocationHypothesis) (*MannWhitneyUTe
 			p = dist.CDF(U1)
 
 		case LocationGreater:
-			p = 1 - dist.CDF(U1-1)
+			// P(U >= U1) = 1 - P(U < U1); with ties U moves in
+			// half steps, so the largest value below U1 is U1-0.5.
+			p = 1 - dist.CDF(U1-0.5)
 		}
 	} else {
 		// Use normal approximation (with tie and continuity
